@@ -303,6 +303,9 @@ func (w *World) makeDialled(idx int, network string) (net.Conn, error) {
 	if ps.connected {
 		return nil, errors.New("already dialled")
 	}
+	if ps.cp.UDP {
+		return w.makeDialledUDP(idx)
+	}
 	isUnix := network == "unix"
 	var local, remote unix.Sockaddr
 	var la, ra net.Addr
@@ -329,6 +332,9 @@ func (w *World) makeDialled(idx int, network string) (net.Conn, error) {
 }
 
 func (w *World) dialAddr(idx int) net.Addr {
+	if idx < len(w.peers) && w.peers[idx].cp.UDP {
+		return &net.UDPAddr{IP: net.IPv4(192, 0, 2, byte(idx)), Port: 5300 + idx}
+	}
 	if w.p.Cfg.Network == "unix" {
 		return &net.UnixAddr{Name: "/tmp/remote.sock", Net: "unix"}
 	}
